@@ -16,8 +16,10 @@ CHECKS = {
                      '(Sismic.tla) and checks the declarative selection formula (Props!C01_*); every explored edge is replayed '
                      'on the real Interpreter and TLC evaluates the same formula on the recorded execution.'),
     'C02': dict(engine='tlc-sismic', ref='6 C02', technique='TLC model checking over all well-formed skeletons + TLC trace validation of every replayed edge',
-                text='Every well-formed skeleton up to 4 (quick) / 5 (thorough) states with every well-formed transition is '
-                     'explored exhaustively by TLC; Legal/Stable (Chart.tla) is evaluated by TLC on every recorded real step.'),
+                text='Every well-formed skeleton up to 4 (quick) / 5 (thorough) states with every well-formed transition, the shipped charts and '
+                     'targeted history/orthogonal families are explored exhaustively by TLC; Legal/Stable (Chart.tla) is evaluated by TLC on '
+                     'every recorded real step, on the recorded runs of the repository test-suite (env-guarded hook), and the structural '
+                     'queries of Statechart are compared with Chart.tla (ChartQueries.tla).'),
     'C03': dict(engine='tlc-sismic', ref='6 C03', technique='TLC model checking + TLC trace validation with code probes, several build variants',
                 text='Probes on every entry/exit/action fragment; TLC checks on model edges and on the recorded real logs '
                      'that the executed fragments equal the MacroStep lists, blocks are atomic, and the documented order holds.'),
@@ -32,7 +34,8 @@ CHECKS = {
                      'restoration micro step of the real interpreter must enter.'),
     'C13': dict(engine='tlc-sismic', ref='6 C13', technique='TLC model checking with after/idle guards, clock advances and in-step ticks + TLC trace validation with ghost entry/idle times',
                 text='Charts with after/idle/active guards; the clock advances between and during steps; TLC checks that '
-                     'every time value seen during a real step is the sampled one and that time guards evaluate as documented.'),
+                     'every time value seen during a real step is the sampled one and that after()/idle() evaluate as documented in guards '
+                     'and inside post-conditions and invariants.'),
     'C07': dict(engine='tlc-sismic', ref='6 C07', technique='TLC model checking of Sismic.tla + TLC evaluation of the twin-run equality relation (Props!RefEq) on paired recorded runs: build variants and PYTHONHASHSEED values',
                 text='Every model edge is replayed on pairs of real statecharts that differ only in declaration order (API orders, '
                      'editing-API construction, YAML, reversed YAML) and, in other processes, under other string-hash seeds; TLC '
@@ -41,12 +44,14 @@ CHECKS = {
                 text='Contract-carrying charts; the model enumerates which single condition occurrence fails; TLC checks on real '
                      'runs the evaluation points per kind, first-false-raises with class/owner/condition, prefix-of-the-failure-free-run, and __old__.'),
     'C09': dict(engine='tlc-sismic', ref='6 C09', technique='TLC model checking with an in-model ignore_contract twin + TLC evaluation of the twin relation on paired real runs',
-                text='Lock-step pairs (contracts on / ignore_contract=True) over contract and time-guard charts; TLC checks equality '
-                     'modulo condition evaluations, and that ignoring runs never evaluate a condition nor raise a ContractError.'),
+                text='Lock-step pairs (contracts on / ignore_contract=True) over contract and time-guard charts, and over the shipped contract '
+                     'charts run with their real code (trace hook); TLC checks equality modulo condition evaluations, and that ignoring '
+                     'runs never evaluate a condition nor raise a ContractError.'),
     'C10': dict(engine='tlc-sismic', ref='6 C10', technique='TLC model checking with the failing meta-event delivery enumerated inside the model (mfail) + TLC trace validation with real property statecharts',
                 text='Real property statecharts that turn final at the k-th meta-event for every k; TLC checks completeness/order/'
-                     'attributes of the meta-events each listener received, fail-fast truncation, monitor clock, non-intrusiveness (twin).'),
-    'C14': dict(engine='tlc-clock', ref='6 C14', technique='TLC model checking of spec/Clock.tla (ghost ideal value) + replay of every edge on the real SimulatedClock + TLC trace validation (spec/ClockTrace.tla)',
+                     'attributes of the meta-events each listener received, fail-fast truncation, monitor clock, non-intrusiveness (twin); a '
+                     'watchdog property statechart (delayed self-sent event) must fire at the very next meta-event.'),
+    'C14': dict(engine='tlc-clock', ref='6 C14', technique='TLC model checking of spec/Clock.tla (ghost ideal value) + Apalache inductive invariant on spec/ClockInd.tla (unbounded integers) + replay of every edge on the real SimulatedClock + TLC trace validation (spec/ClockTrace.tla)',
                 text='All sequences of start/stop/speed/set/pass within bounds; Value = ideal, monotonic, exact/rejected assignment; '
                      'SynchronizedClock through the interpreter engine (clause C14.sync).',
                 note='Trusted: TLC; the scripted integral time source substituted for time.time (wall-clock accuracy is not claimed); integers only.'),
@@ -67,17 +72,18 @@ CHECKS = {
                      'against the declarative rules, then the real importer against both.',
                 note='Trusted: TLC; harness/yaml_check.py rendering of abstract documents to YAML text. Silently ignored keys are outside the fault space.'),
     'C16': dict(engine='tlc-model', ref='6 C16', technique='TLC model checking of spec/Model.tla (soundness invariants, failed => unchanged) + every edge replayed on a real Statechart + TLC trace validation (spec/ModelTrace.tla)',
-                text='Every editing call with valid and invalid arguments from every start structure, plus seeded random '
-                     'sessions; TLC decides soundness of the real structure after each call, failed-edit-changes-nothing, and the exact documented effect.',
+                text='Every editing call with valid and invalid arguments from every start structure, exhaustive remove/re-add pairs and '
+                     'triples of move_state, plus seeded random sessions; TLC decides soundness of the real structure after each call, failed-edit-changes-nothing, and the exact documented effect.',
                 note='Trusted: TLC; harness/model_edit.py projection of a Statechart through its public queries. Transitions identified by (source, target, event).'),
     'C15': dict(engine='tlc-system', ref='6 C15', technique='TLC model checking of spec/System.tla (two interpreters + callables, bind/detach) + every edge replayed on real bound interpreters + TLC trace validation (spec/SystemTrace.tla)',
                 text='All sequences of bind/detach/queue/advance/execute_once over pairs of sending charts within bounds (chains, '
-                     'fan-out, cycles, self-binding, callables); TLC decides what had to be delivered during each real call, and '
+                     'fan-out, cycles, self-binding, callables, a callable that detaches another listener while being notified); TLC decides what had to be delivered during each real call, and '
                      'the queue formulas of each target with the delivered events in its ghost multiset.',
                 note='Trusted: TLC; deliveries to a bound interpreter are observed by wrapping its queue method before binding.'),
     'C19': dict(engine='tlc-bdd', ref='6 C19', technique='TLC enumeration of scenarios over spec/Bdd.tla + each scenario run through the real execute_bdd/behave + TLC decides every reported step status (spec/BddTrace.tla)',
                 text='Every scenario of up to 3 (quick) / 4 (thorough) predefined steps in the documented spelling that ends with '
-                     'an assertion, true and false alike; "passed" must coincide with the documented meaning computed by the model.',
+                     'an assertion, true and false alike, plus seeded longer scenarios; "passed" must coincide with the documented meaning '
+                     'computed by the model; the sismic.testing predicates and Interpreter.execute(max_steps) are checked on the interpreter engine.',
                 note="Trusted: TLC; behave's JSON report for the per-step status; harness/bdd_check.py rendering of steps to Gherkin."),
     'C20': dict(engine='tlc-runner', ref='6 C20', technique='TLC model checking of spec/Runner.tla (all schedules, safety + liveness under fairness) + every maximal schedule forced on the real threads by a deterministic scheduler + TLC trace validation (spec/RunnerTrace.tla)',
                 text='Runner thread against a client thread at the granularity of the scheduling points (queue split at '
